@@ -33,6 +33,30 @@ Definition o_noD1 (c : ocase) := nodes_ok tt_ disjoint_list tt_ tt_ c.(o_env) c.
 Definition o_noD2 (c : ocase) := nodes_ok disjoint_list tt_ tt_ tt_ c.(o_env) c.(o_expr) None None.
 Definition o_noD3 (c : ocase) := nodes_ok mono_ends mono_ends mono_ends mono_ends c.(o_env) c.(o_expr) None None.
 
+(* signature OVC: overlapping() is asked of a Union / Intersection / Filter / Buffer / merge_within
+   node that has a Complement or a (real) Difference somewhere below it.  Those nodes do not
+   override Timeline.overlapping: they answer from fetch(p, p+1), so the complement / difference
+   below them is evaluated on the clipped window [p, p+1) — gaps come back clipped, fragments are
+   carved only by the subtractors meeting [p, p+1) (known finding KF-OVCLIP-C16).  A Difference
+   asks its source's overlapping(); a Complement works from its source's fetch. *)
+Fixpoint has_cd (e : expr) {struct e} : bool :=
+  match e with
+  | Stored _ | Solid => false
+  | Union es | Inter es => existsb has_cd es
+  | Diff s subs => match subs with [] => has_cd s | _ => true end
+  | Compl _ => true
+  | Filt s _ | Buf s _ _ | MergeW s _ => has_cd s
+  end.
+Fixpoint ovc_free (e : expr) {struct e} : bool :=
+  match e with
+  | Stored _ | Solid => true
+  | Union es | Inter es => negb (existsb has_cd es)
+  | Filt s _ | Buf s _ _ | MergeW s _ => negb (has_cd s)
+  | Diff s _ => ovc_free s
+  | Compl _ => true
+  end.
+Definition o_noOVC (c : ocase) := ovc_free c.(o_expr).
+
 (* C18 filter evaluation on single events *)
 Record acase := mkAC { a_env : fenv; a_f : filt; a_ev : ivl; a_out : bool }.
 Definition corr_apply (c : acase) : bool := Bool.eqb (feval c.(a_env) c.(a_f) c.(a_ev)) c.(a_out).
